@@ -99,3 +99,25 @@ Theorem C14_dfs_exhaustive :
                  nth_error (choices ej) q = Some c.
 Proof. exact dfs_exhaustive. Qed.
 Print Assumptions C14_dfs_exhaustive.
+
+Require Import LV.PathDistinct LV.PathApi LV.Prog LV.Objects LV.Exec LV.Check LV.PathExhaust LV.ExecFacts LV.ExecFacts2.
+
+(* The abstract theorems above instantiated on the concrete iteration of the execution model (Check.iteration): L satisfies both iteration contracts (ExecFacts.L_iter_ok, ExecFacts2.L_iter_ok2) *)
+(* the exploration loop over the concrete iteration of the model L (every program, every fuel) stops by itself from the initial path *)
+Theorem C14_L_explore_terminates :
+  forall (fuel : nat) (p : prog) (c : config),
+       finishes (fun pa : path => e_path (fst (iteration fuel p pa)))
+         (S (BASE ^ cap (initial_path c))) (initial_path c) = true.
+Proof. exact L_explore_terminates. Qed.
+Print Assumptions C14_L_explore_terminates.
+
+(* and no two of its iterations take the same decisions *)
+Theorem C14_L_decisions_distinct :
+  forall (fuel : nat) (p : prog) (c : config) (n i j : nat) (pi pj : path),
+       nth_error (explore (fun pa : path => e_path (fst (iteration fuel p pa))) n (initial_path c))
+         i = Some pi ->
+       nth_error (explore (fun pa : path => e_path (fst (iteration fuel p pa))) n (initial_path c))
+         j = Some pj -> i < j -> exists q : nat, diverge_at (choices pi) (choices pj) q.
+Proof. exact L_decisions_distinct. Qed.
+Print Assumptions C14_L_decisions_distinct.
+
